@@ -92,11 +92,21 @@ CLAIMS = {
   note="The reference translation implements the rules of the property statement (order kept, globals before locals, pipeline inv = reverse + toggle inv + exchange omit flags, a,rf -> ellps, k -> k_0).",
   technique="runtime monitoring: executable reference translation from a shared AST, differential against the library's translation at the behavioural level",
   ref="DESIGN.md §2 C17"),
+ "C18": dict(
+  text="Held on the executions observed: over generated histories (10-60 steps on 1-3 Minimal/Plain contexts) of register_op, register_resource, op, apply, steps, params, Plain::clear_grids and new contexts, every instantiation resolves as the registry model says (pipeline, user operator for colon-less names, macro for names with a colon incl. file based ones, built-in; unknown names are errors), handles are pairwise distinct, foreign and fresh handles are refused, and after every history step every live handle still has the behaviour (both directions), step list and parameters it had at instantiation; Plain reads stand-alone resource files and registers (several fenced items, similar names, item at end of file without terminator, LF/CRLF/CR) to exactly the expected text, run-time registrations first; in threaded runs (6 threads, shared &Plain for apply, private contexts instantiating grid operators, clear_grids, injected yields/sleeps between calls) every logged result equals the sequential fingerprint.",
+  note="Schedules are sampled, not enumerated: the evidence reports the number of distinct interleavings of API calls seen (hash of the merged call order). The Miri many-seeds slice described in DESIGN.md is secondary and not part of the registered commands.",
+  technique="runtime monitoring: history checked against an executable registry model after every step; offline checker over per-thread event logs of a stress workload",
+  ref="DESIGN.md §2 C18"),
  "C19": dict(
   text="Held on the executions observed: write/read round trips, bulk accessors, set_xy/xyz/xyzt, stomp for 15 container kinds plus a user container on the trait defaults (missing dimensions read 0 / NaN or the adapter's fixed values, Coor32 through f32); nth/set_nth out of range give NaN without crashing; typed, angular and bulk accessors, update, fill, new, scale, dot, hypot2/3 and + - * / agree with element-wise definitions on hostile values; ISO-6709 DDDMM.mmm / DDDMMSS.sss encodings, dms_to_dd, dm_to_dd, parse_sexagesimal, normalisation and the dm/dms operators agree with the formulas, on a lattice of [-720, 720] degrees (0.05 deg quick, 1 arc-second thorough) and at random with carries, |angle| < 1 degree and zero-degree components.",
   note="Reference definitions are evaluated in the harness in plain f64; 1e-10 degrees for angle conversions.",
   technique="runtime monitoring: independent reference definitions as oracle over generated values and a dense lattice",
   ref="DESIGN.md §2 C19"),
+ "C20": dict(
+  text="Held on the executions observed: kp, built from the working tree and run as a subprocess, prints exactly one line per coordinate line, in order, with the requested number of decimals, each value within half a unit of the last place of the library's result for that line (computed in-process by the same build), cut or extended to -D columns; blank lines, comment lines and trailing comments are skipped, sexagesimal input is read, missing height/time default to 0/NaN or --height/--time, --inv and --roundtrip print the inverse and the forward-inverse residuals; stdin, one file and the same lines spread over two files give byte-identical output, also across the 25000-tuple batch boundary (24999/25000/25001 lines quick, up to 60001 thorough); empty input ends with status 0 and no output, lines with more than four columns are still one line, invalid operations and unreadable files end with a message and a non-zero status that is not a panic status.",
+  note="The default decimals/dimension heuristics are documented as guesses from the data seen so far and are not asserted (all runs give -d and -D). A kp process is called non-terminating only after 60 CPU-seconds.",
+  technique="runtime monitoring: process-boundary differential against in-process library results, plus exit-status monitor",
+  ref="DESIGN.md §2 C20"),
 }
 
 ENGINE_PROPS = sorted(CLAIMS)
